@@ -124,9 +124,12 @@ Record F1facts (fb : flat) : Prop := {
   f1_factor : forall f fd, nth_error (fl_design fb) f = Some fd -> isact fb f = true -> factor_f1 fd = true;
   f1_tables : forall f fd, nth_error (fl_design fb) f = Some fd ->
                            tables_ok fb f fd = true /\ tables_unambiguous fb f fd = true;
-  f1_sustains : forall n, In n (fl_sustains fb) -> n = 1;
   f1_sustains_len : length (fl_sustains fb) = length (fl_crossings fb);
-  f1_sustain : forall f, sustain_of fb f = 1;
+  f1_sustain_pos : forall f, 0 < sustain_of fb f;
+  f1_sustain_one : forall f fd, nth_error (fl_design fb) f = Some fd -> sact fb f = false -> sustain_of fb f = 1;
+  f1_sustain_deps : forall f fd w, nth_error (fl_design fb) f = Some fd -> ff_window fd = Some w -> sact fb f = true ->
+                                   forall d, In d (win_deps w) -> sustain_of fb d mod sustain_of fb f = 0;
+  f1_has_sustain : (forall f, sustain_of fb f = 1) \/ In FSustain (fl_constraints fb);
   f1_crossings : crossings_f1 fb 0 (fl_crossings fb) = true;
   f1_nodup : forall c, In c (fl_crossings fb) -> list_nat_nodup c = true;
   f1_constraints : forall c, In c (fl_constraints fb) -> constraint_f1 fb c = true;
@@ -145,13 +148,24 @@ Proof.
   - right. replace (s + S f) with (S s + f) by lia. apply IH. exact H.
 Qed.
 
+Lemma fold_overwrite_pos (f : nat) :
+  forall (l : list (list nat * nat)) acc,
+    (forall p, In p l -> 0 < snd p) -> 0 < acc ->
+    0 < fold_left (fun acc cs => if existsb (Nat.eqb f) (fst cs) then snd cs else acc) l acc.
+Proof.
+  induction l as [|p l IH]; intros acc H Hacc; simpl; auto.
+  apply IH.
+  - intros q Hq. apply H. right. exact Hq.
+  - destruct (existsb (Nat.eqb f) (fst p)); auto. apply H. left. reflexivity.
+Qed.
+
 Lemma in_f1_facts : forall fb, in_f1 fb = true -> F1facts fb.
 Proof.
   intros fb H. unfold in_f1 in H.
   repeat rewrite andb_true_iff in H.
   destruct H as [[[[[[[[[[[[H1 H2] [H3 H3b]] H4] H5] H8] H9] H10] H11] H12] H13] H14] H15].
-  assert (Hs : forall n, In n (fl_sustains fb) -> n = 1).
-  { intros n Hn. rewrite forallb_forall in H4. apply Nat.eqb_eq. apply H4. exact Hn. }
+  unfold sustains_ok in H4. rewrite !andb_true_iff in H4. destruct H4 as [[H4a H4b] H4c].
+  rewrite forallb_forall in H4a, H4b.
   constructor.
   - apply list_nat_eqb_eq. exact H3.
   - intros f fd Hf. rewrite forallb_forall in H3b.
@@ -163,10 +177,20 @@ Proof.
   - intros f fd Hf. rewrite forallb_forall in H2.
     specialize (H2 (f, fd)). simpl in H2. apply andb_true_iff. apply H2.
     apply (nth_error_combine_seq (fl_design fb) 0 f fd Hf).
-  - exact Hs.
   - apply Nat.eqb_eq. exact H5.
-  - intros f. unfold sustain_of. apply fold_overwrite_one; auto.
-    intros p Hp. apply Hs. destruct p as [c s]. simpl. eapply in_combine_r. exact Hp.
+  - intros f. unfold sustain_of. apply fold_overwrite_pos; [|lia].
+    intros p Hp. destruct p as [c s]. simpl. apply Nat.ltb_lt. apply H4a. eapply in_combine_r. exact Hp.
+  - intros f fd Hf Hsa. specialize (H4b (f, fd) (nth_error_combine_seq (fl_design fb) 0 f fd Hf)).
+    cbn [fst snd] in H4b. apply andb_true_iff in H4b. destruct H4b as [A _].
+    unfold grid_factor in A. unfold sact in Hsa. rewrite Hsa in A. cbn [orb] in A. now apply Nat.eqb_eq.
+  - intros f fd w Hf Hw Hsa d Hd. specialize (H4b (f, fd) (nth_error_combine_seq (fl_design fb) 0 f fd Hf)).
+    cbn [fst snd] in H4b. apply andb_true_iff in H4b. destruct H4b as [_ B]. rewrite Hw in B.
+    unfold grid_factor in B. unfold sact in Hsa. rewrite Hsa in B. cbn [negb orb] in B.
+    rewrite forallb_forall in B. apply Nat.eqb_eq. now apply B.
+  - apply orb_true_iff in H4c. destruct H4c as [A|A].
+    + left. intros f. unfold sustain_of. apply fold_overwrite_one; auto.
+      intros p Hp. destruct p as [c s]. simpl. rewrite forallb_forall in A. apply Nat.eqb_eq. apply A. eapply in_combine_r. exact Hp.
+    + right. apply existsb_exists in A. destruct A as [c [Hc Hk]]. destruct c; try discriminate. exact Hc.
   - exact H8.
   - intros c Hc. rewrite forallb_forall in H9. apply H9. exact Hc.
   - intros c Hc. rewrite forallb_forall in H10. apply H10. exact Hc.
@@ -512,8 +536,15 @@ Proof.
   - apply nth_error_None in E. lia.
 Qed.
 
-Lemma lappl_unfold : forall f t, lappl fb f t = applies_to_trial fb f (t + 1).
-Proof. intros f t. unfold lappl. apply applies_at_S1. apply (f1_sustain fb FF). Qed.
+Lemma lappl_unfold : forall f t, lappl fb f t = applies_to_trial fb f (t / sustain_of fb f + 1).
+Proof. intros f t. unfold lappl, applies_at, sustain. now replace (S t - 1) with t by lia. Qed.
+
+(** a factor of act_design with a complex window is not sustained *)
+Lemma f1_sustain_cx : forall f, isact fb f = true -> is_complex fb f = true -> sustain_of fb f = 1.
+Proof.
+  intros f Ha Hc. destruct (f1_act_shape f Ha) as (fd & E & _).
+  apply (f1_sustain_one fb FF f fd E). unfold sact. now rewrite Ha, Hc.
+Qed.
 
 (** ** Where a factor of act_design has a level *)
 Lemma lappl_simple : forall f t, isact fb f = true -> is_complex fb f = false -> lappl fb f t = true.
@@ -540,11 +571,13 @@ Lemma lappl_stride1 : forall f t, isact fb f = true -> stride1 fb f = true ->
 Proof.
   intros f t Ha Hs. rewrite lappl_unfold.
   destruct (f1_act_shape f Ha) as (fd & E & H).
+  assert (Hsu : is_complex fb f = true -> sustain_of fb f = 1) by (intros Q; now apply f1_sustain_cx).
+  unfold is_complex in Hsu.
   unfold stride1, start_of, factor_at in *. unfold applies_to_trial, factor_at. rewrite E in *.
   unfold factor_f1 in H.
   destruct (ff_window fd) as [w|]; [|reflexivity].
   destruct (ff_complex fd).
-  - cbn [negb orb] in Hs. apply Nat.eqb_eq in Hs. rewrite Hs, Nat.mod_1_r.
+  - rewrite (Hsu eq_refl), Nat.div_1_r. cbn [negb orb] in Hs. apply Nat.eqb_eq in Hs. rewrite Hs, Nat.mod_1_r.
     cbn [Nat.eqb]. rewrite andb_true_r.
     destruct (win_start w <=? t) eqn:Q; [apply Nat.leb_le in Q; apply Nat.leb_le; lia|
                                          apply Nat.leb_gt in Q; apply Nat.leb_gt; lia].
